@@ -74,9 +74,34 @@ PROPS = {
              COMMON_ASSUME + ["an error return is always acceptable for C03", "not judged for exactness (still for totality): known elements announced with a non-registry length, "
                               "messages whose header/set length disagree with the bytes presented, set ids < 256, bytes after the first template record"],
              "runtime monitor: panic/CPU/heap budget monitors + reference-decoder oracle over hostile inputs x template states x modes"),
+    "C04": P(False, (8, 16), 16, (1200, 5400), 50000, 20000, "exploration",
+             "one evaluation = one history of template (layouts A/B[/C/D], differing in width and field count) / bad template (truncated "
+             "specifier list, unsupported-type element, strict-mode unknown element, field count beyond the specifiers) / data (A- or "
+             "B-shaped, or random bodies) messages over several (domain, id) keys, presented to one collecting process (tcp flavour, and udp "
+             "flavour with a frozen injected clock). After every message: accepted iff the model has a valid template in force and the body "
+             "splits under it; delivered records == refipfix's reading under the model's layout; collector's template table (hook) == "
+             "model's keys and element lists. Exhaustive: all 15^4 (quick) / 15^5 (thorough) words over 3 keys; plus random histories of "
+             "length 6..40 over 2 domains x 4 ids in all 3 modes. Non-trivial = a data set after >= 2 template-affecting ops on related keys.",
+             COMMON_ASSUME + ["a template set cut inside its 4-byte (id, count) header is not generated (gray zone)"],
+             "runtime monitor: reference template-table model + table snapshot comparison after every message; bounded-exhaustive + random histories"),
+    "C17": P(False, (8, 16), 16, (1200, 5400), 20000, 10000, "exploration",
+             "one evaluation = one (template mixing known and unknown elements, 1..4 records, decoding mode): wire bytes from refipfix, "
+             "presented to a fresh collecting process per mode, plus a twin without the unknown fields. Strict must reject template and data; "
+             "keep must deliver every unknown field as a nameless octetArray holding exactly the wire bytes (fixed 1..420 and variable with "
+             "1- and 3-byte prefixes); drop must omit exactly the unknown fields; in keep/drop every known field must equal the encoded "
+             "value AND the twin's value, with its registry name. Enumerated: 1..4 known fields x every multiset of <= 3 insertion slots "
+             "(repeated with fresh values); random: 1..11 known fields, 1..3 unknown (IANA absent ids, unknown enterprises, unknown ids in "
+             "known enterprises). Every evaluation is non-trivial (>= 1 unknown and >= 1 known field); distinct by (mode, fields, values).",
+             COMMON_ASSUME + ["zero-length unknown elements belong to C03's degenerate templates"],
+             "runtime monitor: differential decoding (with vs without unknown fields) x 3 modes against refipfix-encoded wire bytes"),
 }
 
 LEVEL_TEXT = {
+    "C17": "Held on every template shape and value vector explored, including every placement of up to 3 unknown fields among up to 4 "
+           "known ones. The property is input/configuration-quantified and deterministic, so differential exploration is the right level.",
+    "C04": "Held on every history explored, exhaustively up to the stated length over 3 keys and randomly beyond. The state that matters "
+           "(which layout is stored under which key) is small, so bounded-exhaustive histories reach every reachable table configuration "
+           "over the 3 keys.",
     "C03": "Held on every input explored: no panic, no call over the CPU/heap budget, every delivered message exactly what the bytes define. "
            "Totality over all byte strings cannot be enumerated; hostile-input exploration with a crash/hang monitor and an independent "
            "reference decoder is what this family offers, and the input classes are aimed at the decoder's length arithmetic.",
